@@ -422,4 +422,10 @@ def rule_sites(ctx):
 TE_SELECT = {}      # how the caller reads (keep, drop) out of transitive_equality's result when it is a struct: field names
 
 
-RULES = [rule_formula, rule_terms, rule_sites]
+def rule_identity(ctx):
+    """items kept in sets are the same element exactly when all their fields agree: see collect.check_structural_identity"""
+    from .. import collect as _collect
+    _collect.check_structural_identity(ctx, "IDENT", ctx.facts)
+
+
+RULES = [rule_formula, rule_terms, rule_sites, rule_identity]
